@@ -402,6 +402,15 @@ type INSDCFormatter struct {
 // String satisfies the fmt.Stringer interface.
 func (fmtr INSDCFormatter) String() string {
 	b := strings.Builder{}
+	// The location column is where the reader expects it from the first
+	// line of the table on; a key that would reach it moves the column of
+	// the whole table, so that every key is set off from its location.
+	depth := fmtr.Depth
+	for _, f := range fmtr.Table {
+		if n := len(fmtr.Prefix) + len(f.Key) + 1; n > depth {
+			depth = n
+		}
+	}
 	for i, f := range fmtr.Table {
 		if i != 0 {
 			b.WriteByte('\n')
@@ -410,8 +419,8 @@ func (fmtr INSDCFormatter) String() string {
 		b.WriteString(f.Key)
 		length := len(fmtr.Prefix) + len(f.Key)
 
-		padding := strings.Repeat(" ", fmtr.Depth-length)
-		prefix := fmtr.Prefix + strings.Repeat(" ", fmtr.Depth-len(fmtr.Prefix))
+		padding := strings.Repeat(" ", depth-length)
+		prefix := fmtr.Prefix + strings.Repeat(" ", depth-len(fmtr.Prefix))
 
 		b.WriteString(padding)
 		b.WriteString(f.Loc.String())
@@ -464,7 +473,13 @@ func featureKeylineParser(prefix string, depth int) pars.Parser {
 			return err
 		}
 		key := string(result.Token)
-		for i := 0; i < depth-len(prefix+key); i++ {
+		// The location starts in its column; behind a key that reaches that
+		// column it starts after one blank.
+		pad := depth - len(prefix+key)
+		if pad < 1 {
+			pad = 1
+		}
+		for i := 0; i < pad; i++ {
 			c, err := pars.Next(state)
 			if err != nil {
 				return err
